@@ -34,10 +34,11 @@ func init() {
 			"(D5) after a cancelled Wait the caller reaches no further Wait and every return it can reach yields false. " +
 			"(D6) every write (store, map insert) to a field the waiters' predicates read is followed by a Broadcast on that condition on every path from the write to a return of the function (through unexported helpers: of its callers; one Broadcast per element of a range loop counts; the branch on which the stored value equals the value read before is exempt), or preceded by one in the same critical section of L; get-or-create inserts of fresh objects and removals are exempt (removals are only noted). " +
 			"(D7) one object per key for the objects waiters sleep on: every insert of a freshly created family object (GroupStatus, PeerStatus, topicUpdate) into a map field of a family object is dominated by the miss of a lookup of the same map made in the same write-locked critical section (same lock write-held at lookup and store, not released in between: no double-checked creation without re-check), and no entry of such a registry map is ever deleted (a waiter may still sleep on the removed object's condition). " +
+			"(D8) the cancellation that reaches a wait is the caller's: at every synchronous call of Notify.Wait or of a function that hands one of its own context parameters to such a call (waiting primitives and their callers, up to 3 levels; calls made with go and closures started with go are goroutine boundaries), a function that has a request context of its own (a context.Context parameter, or a stream parameter offering Context()) passes a context derived from it (possibly wrapped by context.With*); a context that comes only from a long-lived field, context.Background/TODO or context.WithoutCancel is reported (the API route GroupDeviceStatus -> WaitForConnectednessChange is one of these chains). " +
 			"Not decided: that a waiter returns exactly the peers whose status changed (functional content of the diff), fairness/promptness in real time, data races that are not lost wake-ups, behaviour of code that reaches these objects through reflection or unsafe; lock identity is per class, not per instance.",
 		Trusted:     []string{"go/ssa (x/tools v0.29.0)", "sync.Mutex / sync.RWMutex / channel close semantics", "lock identity by owner type + field path; notify.New argument aliasing resolved at construction sites"},
 		Assumptions: []string{"a Notify is only built by notify.New and only stored in the struct field it is constructed for; locks are not passed around as values outside the construction sites"},
-		Floors:      map[string]int{"D1": 10, "D2": 5, "D3": 20, "D4": 9, "D5": 8, "D6": 5, "D7": 6},
+		Floors:      map[string]int{"D1": 10, "D2": 5, "D3": 20, "D4": 9, "D5": 8, "D6": 5, "D7": 6, "D8": 10},
 		Run:         runC16,
 	})
 }
@@ -1359,6 +1360,8 @@ func runC16(c *Ctx) {
 	lap("checkD6")
 	a.checkD7()
 	lap("checkD7")
+	a.checkD8()
+	lap("checkD8")
 }
 
 // ---------- D1
@@ -3080,6 +3083,334 @@ func (a *c16An) releasedBetween(x, y ssa.Instruction, k string) bool {
 		}
 	}
 	return false
+}
+
+// ---------- D8: the cancellation that reaches a wait is the caller's
+
+func c16IsContext(t types.Type) bool {
+	n, ok := types.Unalias(t).(*types.Named)
+	return ok && n.Obj().Pkg() != nil && n.Obj().Pkg().Path() == "context" && n.Obj().Name() == "Context"
+}
+
+// c16HasContextMethod: values of type t offer Context() context.Context (a stream).
+func c16HasContextMethod(t types.Type) bool {
+	if c16IsContext(t) {
+		return false
+	}
+	ms := types.NewMethodSet(t)
+	for i := 0; i < ms.Len(); i++ {
+		f, ok := ms.At(i).Obj().(*types.Func)
+		if !ok || f.Name() != "Context" {
+			continue
+		}
+		sig := f.Type().(*types.Signature)
+		if sig.Params().Len() == 0 && sig.Results().Len() == 1 && c16IsContext(sig.Results().At(0).Type()) {
+			return true
+		}
+	}
+	return false
+}
+
+// c16CtxRoots: where a context value comes from. Roots are *ssa.Parameter (a context
+// parameter, or a stream parameter whose Context() is taken) or strings describing other
+// origins (field:<class>, background, detached, call:<key>, global:<name>, other).
+func c16CtxRoots(v ssa.Value) (params map[*ssa.Parameter]bool, others map[string]bool) {
+	params, others = map[*ssa.Parameter]bool{}, map[string]bool{}
+	seen := map[ssa.Value]bool{}
+	var storesTo func(al *ssa.Alloc, depth int)
+	var visit func(v ssa.Value, depth int)
+	storesTo = func(al *ssa.Alloc, depth int) {
+		if al.Referrers() == nil {
+			return
+		}
+		found := false
+		for _, r := range *al.Referrers() {
+			if st, ok := r.(*ssa.Store); ok && st.Addr == ssa.Value(al) {
+				found = true
+				visit(st.Val, depth+1)
+			}
+			// the variable may also be assigned inside closures that capture it
+			if mc, ok := r.(*ssa.MakeClosure); ok {
+				f, _ := mc.Fn.(*ssa.Function)
+				for i, b := range mc.Bindings {
+					if b != ssa.Value(al) || f == nil || i >= len(f.FreeVars) || f.FreeVars[i].Referrers() == nil {
+						continue
+					}
+					for _, fr := range *f.FreeVars[i].Referrers() {
+						if st, ok := fr.(*ssa.Store); ok && st.Addr == ssa.Value(f.FreeVars[i]) {
+							found = true
+							visit(st.Val, depth+1)
+						}
+					}
+				}
+			}
+		}
+		if !found {
+			others["other"] = true
+		}
+	}
+	visit = func(v ssa.Value, depth int) {
+		if v == nil || seen[v] {
+			return
+		}
+		seen[v] = true
+		if depth > 30 {
+			others["other"] = true
+			return
+		}
+		switch x := v.(type) {
+		case *ssa.Parameter:
+			params[x] = true
+		case *ssa.Phi:
+			for _, e := range x.Edges {
+				visit(e, depth+1)
+			}
+		case *ssa.Extract:
+			visit(x.Tuple, depth+1)
+		case *ssa.MakeInterface:
+			visit(x.X, depth+1)
+		case *ssa.ChangeInterface:
+			visit(x.X, depth+1)
+		case *ssa.ChangeType:
+			visit(x.X, depth+1)
+		case *ssa.TypeAssert:
+			visit(x.X, depth+1)
+		case *ssa.Const:
+			others["nil"] = true
+		case *ssa.FreeVar:
+			// the captured value (or variable) in the enclosing function
+			fn := x.Parent()
+			idx := -1
+			for i, fv := range fn.FreeVars {
+				if fv == x {
+					idx = i
+				}
+			}
+			bound := false
+			if p := fn.Parent(); p != nil && idx >= 0 {
+				for _, b := range p.Blocks {
+					for _, in := range b.Instrs {
+						if mc, ok := in.(*ssa.MakeClosure); ok && mc.Fn == ssa.Value(fn) && idx < len(mc.Bindings) {
+							bound = true
+							visit(mc.Bindings[idx], depth+1)
+						}
+					}
+				}
+			}
+			if !bound {
+				others["other"] = true
+			}
+		case *ssa.Alloc:
+			// reached as the binding of a variable captured by reference
+			storesTo(x, depth)
+		case *ssa.UnOp:
+			if x.Op != token.MUL {
+				others["other"] = true
+				return
+			}
+			switch ad := x.X.(type) {
+			case *ssa.Alloc:
+				storesTo(ad, depth)
+			case *ssa.FreeVar:
+				visit(ad, depth+1)
+			case *ssa.FieldAddr:
+				cls, _, _ := c16DataClass(ad)
+				others["field:"+cls] = true
+			case *ssa.Global:
+				others["global:"+ad.Name()] = true
+			default:
+				others["other"] = true
+			}
+		case *ssa.Field:
+			cls, _, _ := c16DataClass(x)
+			others["field:"+cls] = true
+		case *ssa.Call:
+			cc := x.Common()
+			if cc.IsInvoke() {
+				if cc.Method.Name() == "Context" && len(cc.Args) == 0 {
+					visit(cc.Value, depth+1) // stream.Context(): the stream stands for the request
+					return
+				}
+				others["call:"+calleeKey(cc)] = true
+				return
+			}
+			key := calleeKey(cc)
+			switch key {
+			case "context.WithCancel", "context.WithTimeout", "context.WithDeadline", "context.WithValue",
+				"context.WithCancelCause", "context.WithTimeoutCause", "context.WithDeadlineCause":
+				visit(cc.Args[0], depth+1)
+			case "context.Background", "context.TODO":
+				others["background"] = true
+			case "context.WithoutCancel":
+				others["detached"] = true
+			default:
+				// a method Context() of a concrete stream, or a helper combining contexts: what it is given
+				followed := false
+				for _, arg := range cc.Args {
+					if c16IsContext(arg.Type()) || c16HasContextMethod(arg.Type()) {
+						followed = true
+						visit(arg, depth+1)
+					}
+				}
+				if !followed {
+					others["call:"+key] = true
+				}
+			}
+		default:
+			others["other"] = true
+		}
+	}
+	visit(v, 0)
+	return
+}
+
+// c16StartedWithGo: f is a closure that is started with a go statement in its parent.
+func c16StartedWithGo(f *ssa.Function) bool {
+	p := f.Parent()
+	if p == nil {
+		return false
+	}
+	for _, b := range p.Blocks {
+		for _, in := range b.Instrs {
+			g, ok := in.(*ssa.Go)
+			if !ok {
+				continue
+			}
+			if mc, ok := g.Common().Value.(*ssa.MakeClosure); ok && mc.Fn == ssa.Value(f) {
+				return true
+			}
+		}
+	}
+	return false
+}
+
+// checkD8: every call of a waiting primitive (Notify.Wait, a function that hands one of its
+// context parameters to such a call, transitively up to 3 levels) made in a function that has
+// a request context of its own (a context.Context parameter, or a stream parameter offering
+// Context(), of the function or of the functions enclosing a closure) passes a context derived
+// from that request context. Functions without any request context have nothing to propagate.
+func (a *c16An) checkD8() {
+	c := a.c
+	cg := a.w.callGraph()
+	// forwarders: function -> indices of the context parameters that reach a wait
+	fwd := map[*ssa.Function]map[int]bool{}
+	for i, p := range a.fnWait.Params {
+		if c16IsContext(p.Type()) {
+			fwd[a.fnWait] = map[int]bool{i: true}
+		}
+	}
+	if len(fwd) == 0 {
+		c.undecided("D8", "Notify.Wait", a.fnWait.Pos(), "Notify.Wait has no context parameter")
+		return
+	}
+	type site struct {
+		fn     *ssa.Function
+		call   ssa.CallInstruction
+		callee *ssa.Function
+		arg    ssa.Value
+	}
+	var sites []site
+	seenSite := map[ssa.Instruction]bool{}
+	frontier := []*ssa.Function{a.fnWait}
+	for round := 0; round < 4 && len(frontier) > 0; round++ {
+		var next []*ssa.Function
+		for _, callee := range frontier {
+			idxs := fwd[callee]
+			for _, cs := range cg.callers[callee] {
+				if staticCallee(cs.Instr.Common()) != callee || seenSite[cs.Instr.(ssa.Instruction)] {
+					continue
+				}
+				if p := fnPkg(cs.Caller); p == nil || p.Path() == c16PkgNotify {
+					continue
+				}
+				if _, isGo := cs.Instr.(*ssa.Go); isGo {
+					continue // the wait runs in a new goroutine: its context is that goroutine's business
+				}
+				seenSite[cs.Instr.(ssa.Instruction)] = true
+				for i := range idxs {
+					if i >= len(cs.Instr.Common().Args) {
+						continue
+					}
+					arg := cs.Instr.Common().Args[i]
+					sites = append(sites, site{cs.Caller, cs.Instr, callee, arg})
+					// does the caller forward a parameter of its own (or of an enclosing function) ?
+					ps, _ := c16CtxRoots(arg)
+					for p := range ps {
+						// only a function that itself blocks in the wait forwards it to its callers: a
+						// parameter captured by a closure (typically started with go) does not count
+						if !c16IsContext(p.Type()) || p.Parent() != cs.Caller {
+							continue
+						}
+						f := p.Parent()
+						for j, q := range f.Params {
+							if q == p {
+								if fwd[f] == nil {
+									fwd[f] = map[int]bool{}
+									if round < 3 {
+										next = append(next, f)
+									}
+								}
+								fwd[f][j] = true
+							}
+						}
+					}
+				}
+			}
+		}
+		frontier = next
+	}
+	sort.Slice(sites, func(i, j int) bool {
+		if sites[i].fn.String() != sites[j].fn.String() {
+			return sites[i].fn.String() < sites[j].fn.String()
+		}
+		return sites[i].call.Pos() < sites[j].call.Pos()
+	})
+	seenCons := map[string]int{}
+	for _, s := range sites {
+		c.analysed(s.fn)
+		cons := fnName(s.fn) + "+ctx->" + fnName(s.callee)
+		seenCons[cons]++
+		if n := seenCons[cons]; n > 1 {
+			cons += fmt.Sprintf("#%d", n)
+		}
+		// the request contexts available here
+		req := map[*ssa.Parameter]bool{}
+		var reqNames []string
+		for f := s.fn; f != nil; f = f.Parent() {
+			for _, p := range f.Params {
+				if c16IsContext(p.Type()) || c16HasContextMethod(p.Type()) {
+					req[p] = true
+					reqNames = append(reqNames, p.Name())
+				}
+			}
+			if c16StartedWithGo(f) {
+				break // goroutine boundary: the enclosing function does not wait for this closure
+			}
+		}
+		sort.Strings(reqNames)
+		ps, others := c16CtxRoots(s.arg)
+		if len(req) == 0 {
+			c.ok("D8", cons, posOf(s.call), "the function has no request context of its own (no context or stream parameter): nothing to propagate")
+			continue
+		}
+		derived := false
+		for p := range ps {
+			if req[p] {
+				derived = true
+			}
+		}
+		var from []string
+		for p := range ps {
+			from = append(from, "parameter "+p.Name())
+		}
+		for o := range others {
+			from = append(from, o)
+		}
+		sort.Strings(from)
+		c.check(derived, "D8", cons, posOf(s.call),
+			"the context handed to the wait derives from the function's own request context ("+strings.Join(reqNames, ", ")+")",
+			fmt.Sprintf("the context handed to %s does not derive from the function's own request context (%s) but only from: %s; when the caller of %s cancels, the wait is not cancelled: it stays asleep until the state changes or the long-lived context ends, and a cancelled wait does not return promptly", fnName(s.callee), strings.Join(reqNames, ", "), strings.Join(from, ", "), fnName(s.fn)))
+	}
 }
 
 func c16IsRead(v ssa.Value) bool {
